@@ -21,7 +21,7 @@ ASSUMPTIONS = ['link errors are reported the two ways RadioDriver does: from its
                'in the calling thread', 'virtual-time horizon of 150 s per blocking call stands in for "bounded time"']
 REQUIRED = ['mon.attempts', 'mon.trigger_fired', 'mon.reconnects', 'mon.fault_before_first_packet',
             'mon.fault_mid_setup', 'mon.fault_after_connected', 'mon.close_in_callback', 'mon.sync_api', 'mon.async_api',
-            'mon.line_preempted_runs']
+            'mon.line_preempted_runs', 'mon.three_cycle_histories']
 DESC_TIMEOUT = 1500
 BATCHES_PER_JOB = 4
 
@@ -56,7 +56,7 @@ def cases(tier, seed):
                         n += 1
                         out.append({'seed': seed * 1000003 + n, 'nlog': nlog, 'nparam': nparam, 'proto': proto,
                                     'mems': mk, 'api': api, 'trigger': trig, 'reporter': reporter, 'sched': pol,
-                                    'line_p': lp, 'S': S, 'resend': rnd.random() < 0.3})
+                                    'line_p': lp, 'S': S, 'resend': rnd.random() < 0.3, 'prefault': n % 3 == 0})
     return out
 
 
@@ -146,6 +146,43 @@ def one_run(desc, k, sseed, calibrate=False):
             seen = [e[1] for e in ob.events if e[0] == attempt['n'] and e[1] in LIFE]
             return seen[-1] if seen else 'requested'
 
+        # ---------------- attempt 0 (optional): an earlier session of the same object that was cut short
+        if desc.get('prefault') and not calibrate:
+            prnd = random.Random(sseed ^ 0xA5A5)
+            attempt['n'] = 0
+            kind0 = prnd.choice(('fault_rx', 'fault_tx', 'close'))
+            k0 = prnd.randint(1, 30)
+            spec.fail_reporter = prnd.choice(('driver', 'sender')) if kind0 == 'fault_tx' else 'driver'
+            if kind0 == 'fault_rx':
+                spec.fail_after_rx = k0
+            elif kind0 == 'fault_tx':
+                spec.fail_after_tx = k0
+            s.horizon = s.now + 150.0
+            ob.events.append((0, 'open_call', s.now, 'main', ()))
+            raised0 = None
+            try:
+                if scf is not None:
+                    scf.open_link()
+                else:
+                    cf.open_link(uri)
+                    outcome.wait(20.0)
+            except ds.SchedAbort:
+                raise
+            except Exception as e:  # noqa
+                raised0 = repr(e)[:200]
+            ob.events.append((0, 'open_ret', s.now, 'main', (raised0,)))
+            s.sleep(prnd.choice((0.0, 0.05, 1.2)))
+            if cf.link is not None or (scf is not None and scf.is_link_open()):
+                ob.events.append((0, 'close_call', s.now, 'main', ()))
+                (scf.close_link() if scf is not None and scf.is_link_open() else cf.close_link())
+                ob.events.append((0, 'close_ret', s.now, 'main', ()))
+            # quiescence before the judged attempt (events are attributed to attempts by time)
+            s.horizon = s.now + 150.0
+            s.sleep(3.0)
+            spec.fail_after_tx = spec.fail_after_rx = None
+            spec.sess_tx = spec.sess_rx = 0     # the closer thread of attempt 1 polls the per-session counter
+            res['faults_before'] = spec.faults_fired
+            outcome.clear()
         # ---------------- attempt 1
         attempt['n'] = 1
         spec.fail_reporter = desc['reporter']
@@ -199,7 +236,7 @@ def one_run(desc, k, sseed, calibrate=False):
             closer.join()
         s.horizon = s.now + 150.0
         s.sleep(3.0)
-        if spec.faults_fired:
+        if spec.faults_fired > res.get('faults_before', 0):
             res['fired'] = True
             if res['phase'] is None:
                 res['phase'] = 'see-trace'
@@ -336,7 +373,12 @@ def judge(desc, k, res, ctx, rp):
                 cnt = 0
                 while j < len(evs) and not (evs[j][1] == 'close_ret' and evs[j][3] == evs[i][3]):
                     if evs[j][1] == 'disconnected':
-                        cnt += 1
+                        # a link failure hit by close_link's own last transmission accounts for one
+                        # (disconnected, connection_lost) pair of its own; the close still owes exactly one
+                        # (paired by delivering thread: the two deliveries may interleave)
+                        nxt = [e for e in evs[j + 1:] if e[1] in Recorder_NAMES and e[3] == evs[j][3]]
+                        if not (nxt and nxt[0][1] == 'connection_lost'):
+                            cnt += 1
                     j += 1
                 if j < len(evs) and cnt != 1:
                     V('R6:close_link-delivered-%d-disconnected' % cnt, dict(ctxd, attempt=n, caller=evs[i][3],
@@ -344,6 +386,10 @@ def judge(desc, k, res, ctx, rp):
             i += 1
         return life
 
+    ev0 = [e for e in ob.events if e[0] == 0]
+    if ev0:
+        check_attempt(ev0, 0, False)
+        ctx.count('mon.three_cycle_histories')
     life1 = check_attempt(ev1, 1, not res['fired'])
     # R4 tables at connected
     exp_log, exp_param = res['exp']
@@ -352,7 +398,7 @@ def judge(desc, k, res, ctx, rp):
             V('R4:at-connected:' + m, dict(ctxd, attempt=n, **d))
         ctx.count('mon.tables_at_connected')
     # R5: outcome of an injected fault
-    if trig in ('fault_tx', 'fault_rx') and res['spec'].faults_fired:
+    if trig in ('fault_tx', 'fault_rx') and res['spec'].faults_fired > res.get('faults_before', 0):
         nd, nl, nf = life1.count('disconnected'), life1.count('connection_lost'), life1.count('connection_failed')
         if 'link_established' in life1:
             if nd != 1 or nl != 1:
